@@ -71,7 +71,7 @@ func init() {
 }
 
 func cbModelPart(c *Ctx, prop string) {
-	n := c.N(400, 12000)
+	n := c.N(1500, 40000)
 	c.Cases("script", n, func(i int, r *rand.Rand) {
 		depth := 1
 		if prop == "C18" {
@@ -260,7 +260,7 @@ func (f *freeBreaker) burst(clk *atomic.Int64, g, n int) []freeObs {
 }
 
 func c05Free(c *Ctx) {
-	c.Cases("free", c.N(40, 1200), func(i int, r *rand.Rand) {
+	c.Cases("free", c.N(120, 3000), func(i int, r *rand.Rand) {
 		fb := pick(r, []time.Duration{time.Second, 2 * time.Second})
 		freeze(baseTime.Add(time.Duration(r.Int64N(1e9))))
 		defer unfreeze()
@@ -342,7 +342,7 @@ func greedyRamp(n int, e, D time.Duration) (lo, hi int64) {
 }
 
 func c12FreeRamp(c *Ctx) {
-	c.Cases("freeramp", c.N(60, 2000), func(i int, r *rand.Rand) {
+	c.Cases("freeramp", c.N(250, 6000), func(i int, r *rand.Rand) {
 		fb := time.Second
 		D := pick(r, []time.Duration{time.Second, 2 * time.Second, 4 * time.Second})
 		freeze(baseTime.Add(time.Duration(r.Int64N(1e9))))
@@ -405,7 +405,7 @@ func c12FreeRamp(c *Ctx) {
 }
 
 func c18FreeTrip(c *Ctx) {
-	c.Cases("freetrip", c.N(60, 2000), func(i int, r *rand.Rand) {
+	c.Cases("freetrip", c.N(200, 5000), func(i int, r *rand.Rand) {
 		fb := pick(r, []time.Duration{time.Second, 2 * time.Second})
 		freeze(baseTime.Add(time.Duration(r.Int64N(1e9))))
 		defer unfreeze()
@@ -625,7 +625,7 @@ func cbCycleRun(c *Ctx, i int, r *rand.Rand) (seq []string, onTripped, onStandby
 }
 
 func c05Cycle(c *Ctx) {
-	c.Cases("cycle", c.N(16, 400), func(i int, r *rand.Rand) {
+	c.Cases("cycle", c.N(24, 800), func(i int, r *rand.Rand) {
 		seq, _, _, fb, rec, total := cbCycleRun(c, i, r)
 		c.Eval()
 		c.Count("cycle_requests", int64(total))
@@ -649,7 +649,7 @@ func c05Cycle(c *Ctx) {
 
 // c18CycleEffects: same workload; the side effects must have run exactly once per state change into tripped / standby.
 func c18CycleEffects(c *Ctx) {
-	c.Cases("cycleeffects", c.N(16, 400), func(i int, r *rand.Rand) {
+	c.Cases("cycleeffects", c.N(24, 800), func(i int, r *rand.Rand) {
 		seq, gotT, gotS, fb, rec, total := cbCycleRun(c, i, r)
 		c.Eval()
 		c.Count("cycle_requests", int64(total))
